@@ -55,6 +55,12 @@ def gen_plan(seed: int, tier: str) -> dict:
     if r.random() < 0.15:
         listeners["A"] = {"adds": "A2"}
     subs_pool = [(1, 10), (1, 11), (1, 12), (2, 10), (2, 11), (2, 13), (1, 15)]
+    if r.random() < 0.25:
+        # a listener that answers "the connection is back" with an API call of its own - a subscription to something new, an
+        # unsubscribe, a read - landing while the connector is re-subscribing on the fresh connection
+        ids = sorted(r.sample(subs_pool, r.choice([1, 1, 2])))
+        listeners["B"] = {"on_back": {"op": {"op": r.choice(["subscribe", "subscribe", "unsubscribe", "get"]), "ids": [list(i) for i in ids]},
+                                      "ticks": r.choice([0, 0, 1, 2, 4]), "from": r.choice([1, 2, 2]), "times": r.choice([1, 1, 3])}}
     horizon = r.choice([5.0, 20.0, 60.0, 200.0])
     ops = []
     for _ in range(r.randint(4, 24)):
